@@ -320,6 +320,7 @@ fn run_shard(ctx: &ShardCtx, acc: &mut Acc) {
             &CfOpts {
                 back_edges: back,
                 faults: false,
+                trunc_tail: true,
                 max_blocks: 8,
             },
         );
